@@ -363,6 +363,10 @@ fn random_case(u: &mut Choices, sz: Size) -> CaseResult {
     if captures {
         add_capture_idiom(u, &mut file, &doc);
     }
+    // ... and a quarter guard rules by the presence of a resource type (same path, different filters)
+    if wide && u.chance(1, 4) {
+        add_type_guard_idiom(u, &mut file, &doc);
+    }
     let doc_text = doc.to_json();
     let base = print_file(&file);
     let variants = make_variants(u, &file);
